@@ -235,6 +235,11 @@ def definitions(draw, version, used):
             used.add(node.long)
             content.insert(draw(st.integers(0, len(content))),
                            make_tag(f"{node.short}/#", tag_id(node, "#"), node=node.long, kind="placeholder"))
+            if draw(st.integers(0, 2)) == 0:
+                # a sibling on the same node with a fixed value: once '#' is filled in, the two tags may sort either way
+                v0, _ = value_for(draw, node, pl)
+                content.insert(draw(st.integers(0, len(content))),
+                               make_tag(f"{node.short}/{v0}", tag_id(node, v0), node=node.long, kind="value"))
         defs.append({"name": name, "takes": takes, "content": content})
     return defs
 
@@ -269,6 +274,11 @@ def def_value_for(draw, d, pl):
     node = pl.m.by_long[ph["node"].casefold()]
     val, _ = value_for(draw, node, pl)
     # values of Def tags may not contain a slash; a unit text is allowed ("3 ms")
+    fixed = {c["t"].split("/", 1)[1].casefold() for c in flatten(d["content"])
+             if c.get("kind") == "value" and c.get("node") == ph["node"] and "/" in c["t"]}
+    while val.casefold() in fixed:      # never the value of a same-node sibling (that would be a repeated tag)
+        i = next((k for k, ch in enumerate(val) if ch.isalnum()), 0)
+        val = val[:i] + "1" + val[i:]    # deterministic, keeps the value in its class ("0" -> "10", "-3 ms" -> "-13 ms")
     return val
 
 
